@@ -827,6 +827,9 @@ func (env *specEnv) call(n *SCall) (TV, error) {
 		if lit, ok := n.Args[0].(*SStr); ok && len(lit.V) <= 64 && b.Sort == "Str" {
 			return TV{StrEqLit(b.T, lit.V), "Bool", nil}, nil
 		}
+		if a.Sort != "Str" || b.Sort != "Str" {
+			return TV{}, fmt.Errorf("streq: arguments must be strings (got %s and %s)", a.Sort, b.Sort)
+		}
 		return TV{fmt.Sprintf("(streq %s %s)", a.T, b.T), "Bool", nil}, nil
 	case "deref":
 		a, err := env.Term(n.Args[0])
